@@ -26,6 +26,8 @@ ATOMSETS = [
     [("%m>=3", lambda d: d.month >= 3), ("%d<20", lambda d: d.day < 20), ("==2012-03-15", lambda d: d == datetime.date(2012, 3, 15))],
     # a date without operator means equality (also under negation)
     [("2012-03-15", lambda d: d == datetime.date(2012, 3, 15)), ("%Y<2012", lambda d: d.year < 2012), ("2012-05-05", lambda d: d == datetime.date(2012, 5, 5))],
+    # week specifiers at year boundaries (the ISO week of 1-3 January may belong to the old year)
+    [("%V>=52", lambda d: d.isocalendar()[1] >= 52), ("%u<6", lambda d: d.isoweekday() < 6), ("%m==1", lambda d: d.month == 1)],
     # zero-padded numbers are decimal (08, 09 and 032 are not octal)
     [("%d>=08", lambda d: d.day >= 8), ("%m!=09", lambda d: d.month != 9), ("%j<=032", lambda d: d.timetuple().tm_yday <= 32)],
 ]
@@ -41,6 +43,9 @@ def lines_for(aset):
         d += datetime.timedelta(days=1)
     # always include the special dates mentioned by the atoms
     extra = [datetime.date(2012, 5, 5), datetime.date(2012, 3, 15), datetime.date(2012, 7, 1), datetime.date(2012, 6, 30)]
+    # the days around new year of every year type (ISO week 52/53/1 on both sides)
+    for y in (2009, 2010, 2012, 2015, 2016, 2020, 2021, 2024, 2026, 2027, 2032, 2033):
+        extra += [datetime.date(y, 12, 28), datetime.date(y, 12, 31), datetime.date(y + 1, 1, 1), datetime.date(y + 1, 1, 3), datetime.date(y + 1, 1, 4)]
     ds = list(want.values()) + extra
     out = []
     for i, x in enumerate(ds):
